@@ -107,6 +107,7 @@ class RuleSel(SymVal):
     def sym_is(self, it, o): return self is o
 
 def rule_target_obligations(ctx, prefix):
+    register_replayers(ctx, prefix)
     from pytableaux.proof import Rule
     from collections.abc import Sequence
     fi = source.of_function(Rule.__dict__['target'])
@@ -208,6 +209,7 @@ class RuleChoice(SymVal):
         raise Outside('ordering of rules')
 
 def next_obligations(ctx, prefix):
+    register_replayers(ctx, prefix)
     from pytableaux.proof import Tableau
     fi = source.of_function(Tableau.__dict__['next'])
     where = ctx.under_contract(fi)
@@ -266,3 +268,26 @@ def next_obligations(ctx, prefix):
                        meta=dict(clause='next() returns None only when every rule of every group was asked on every open branch and offered nothing; otherwise it returns an offered '
                                         '(rule, target) of the first open branch / first group with an offer (the first offer without group optimisation, a maximal-score one with it); never raises',
                                  paths=npaths, bad=bad[:4])))
+
+
+def replay_selection(r):
+    "valid propositional arguments under the four option combinations, built at once and step by step"
+    from pytableaux.lang import Argument
+    from pytableaux.proof import Tableau
+    out = []
+    for L in ('CPL', 'K3', 'FDE', 'S4'):
+        for a in ('a:a', 'a:Kab', 'b:a:Cab', 'Aab:a'):
+            for g in (True, False):
+                for k in (True, False):
+                    try:
+                        t = Tableau(L, Argument(a), is_group_optim=g, is_rank_optim=k).build()
+                        t2 = Tableau(L, Argument(a), is_group_optim=g, is_rank_optim=k)
+                        while t2.step(): pass
+                    except Exception as e:
+                        out.append(f'{L} {a} group={g} rank={k}: {type(e).__name__}'); continue
+                    if not (t.valid and t2.valid): out.append(f'{L} {a} group={g} rank={k}: valid={t.valid} (build) / {t2.valid} (steps), history {len(t.history)}')
+    return dict(reproduced=bool(out), detail='; '.join(out[:3]) or 'the sample arguments are proved under every option combination')
+
+def register_replayers(ctx, prefix):
+    for nm in ('Rule.target', 'Rule._extend_targets', 'Rule._select_best_target', 'Tableau.next', 'Tableau._get_group_application', 'Tableau._select_optim_group_application'):
+        ctx.replayers.setdefault(f'{prefix}.{nm}', replay_selection)
